@@ -211,7 +211,10 @@ pub fn running_with(n: usize) -> String {
     let mut s = format!("<configuration xmlns=\"{XNM}\"><policy-options>");
     for i in 0..n {
         s.push_str(&format!(
-            "<policy-statement xmlns:jcmd=\"http://yang.juniper.net/junos/jcmd\" jcmd:comment=\"/* bgpfu-fltr: {{ 192.0.{i}.0/24^24-28, 2001:db8:{i}::/48 }} */\"><name>p{i}</name><then><reject/></then></policy-statement>"
+            "<policy-statement xmlns:jcmd=\"http://yang.juniper.net/junos/jcmd\" jcmd:comment=\"/* bgpfu-fltr: {{ 10.{}.{}.0/24^24-28, 2001:db8:{:x}::/48 }} */\"><name>p{i}</name><then><reject/></then></policy-statement>",
+            i / 256,
+            i % 256,
+            i
         ));
     }
     s.push_str("</policy-options></configuration>");
